@@ -57,6 +57,10 @@ func ValidateCreateVestingAccount(fromAddress string, toAddress string, amount s
 	if amount.IsAnyNegative() {
 		return nil, nil, errors.Wrap(ErrParam, "create vesting account - negative coin amount")
 	}
+	if startTime < 0 {
+		// unix times; a start far enough in the past overflows the vesting schedule arithmetic of the new account
+		return nil, nil, errors.Wrapf(ErrParam, "create vesting account - start time cannot be negative (%d)", startTime)
+	}
 	if startTime > endTime {
 		return nil, nil, errors.Wrapf(ErrParam, "create vesting account - start time is after end time error (%s > %s)", time.Unix(startTime, 0).String(), time.Unix(endTime, 0).String())
 	}
